@@ -303,4 +303,24 @@ Section C02Model.
   (* distancePairs: all N1 x N2 distances, group2 index running fastest *)
   Definition cv_distance_pairs (pbc : bool) (cell : option V3) (g1 g2 : list atom) : list T :=
     flat_map (fun a1 => map (fun a2 => v3norm (pdist pbc cell (a_pos a1) (a_pos a2))) g2) g1.
+  (* ---------------------------------------------------------------- coordNum with a pair list (tolerance > 0)
+     coordnum::switching_function with ef_use_pairlist: at a rebuild step every pair is evaluated and flagged
+     (func > -tolerance/2); at the other steps unflagged pairs are skipped (contribute 0) *)
+  Definition switching_raw (r0 : T) (r0v : option V3) (en ed : Z) (tol : T) (cell : option V3) (p1 p2 : V3) : T :=
+    let '(dx, dy, dz) := position_distance O cell p1 p2 in
+    let sd := match r0v with
+              | Some (a, b, c) => (dx / a, dy / b, dz / c)
+              | None => (dx / r0, dy / r0, dz / r0)
+              end in
+    let l2 := v3norm2 O sd in
+    let xn := ipow l2 (Z.quot en 2) in
+    let xd := ipow l2 (Z.quot ed 2) in
+    ((one - xn) / (one - xd) - tol) / (one - tol).
+  Definition all_pairs (g1 g2 : list atom) : list (atom * atom) := flat_map (fun a1 => map (fun a2 => (a1, a2)) g2) g1.
+  Definition pairlist_build (r0 : T) (r0v : option V3) (en ed : Z) (tol : T) (cell : option V3) (g1 g2 : list atom) : list bool :=
+    map (fun pr => nltb O (nneg O (tol * nhalf O)) (switching_raw r0 r0v en ed tol cell (a_pos (fst pr)) (a_pos (snd pr))))
+        (all_pairs g1 g2).
+  Definition cv_coordnum_pl (pl : list bool) (r0 : T) (r0v : option V3) (en ed : Z) (tol : T) (cell : option V3) (g1 g2 : list atom) : T :=
+    lsum (fun t : bool * (atom * atom) => if fst t then switching r0 r0v en ed tol cell (a_pos (fst (snd t))) (a_pos (snd (snd t))) else zero)
+         (combine pl (all_pairs g1 g2)).
 End C02Model.
